@@ -829,6 +829,15 @@ func setMergeSettings(dpChain []*DataProcessor) mergeSettings {
 					break
 				}
 
+				if k < i && dp.IsPermutingCmd() && dp.IsMergeableBottleneckCmd() {
+					// An earlier sort: its mergeSettings are what the merger
+					// behind its parallel clones uses (SetupQueryParallelism),
+					// i.e. the order of its OUTPUT. Overwriting them with
+					// "any order" made that merger interleave the clones'
+					// sorted top-N lists arbitrarily before cutting at N.
+					break
+				}
+
 				dp.mergeSettings = curMergeSettings
 			}
 		}
